@@ -135,9 +135,8 @@ type c19Op struct {
 }
 
 type c19Case struct {
-	Seed    uint64  `json:"seed"`
-	Variant [4]bool `json:"variant"` // dirSwap ecdhJwe ecdhDirectDraw gcmkwCheck (probed)
-	Ops     []c19Op `json:"ops"`
+	Seed uint64  `json:"seed"`
+	Ops  []c19Op `json:"ops"`
 }
 
 var c19Encs = []string{"A128CBC-HS256", "A192CBC-HS384", "A256CBC-HS512", "A128GCM", "A192GCM", "A256GCM"}
@@ -725,10 +724,10 @@ func c19KWItems(op c19Op, iv, p2s []byte, p2c int64) []c19Item {
 }
 
 // ---------------------------------------------------------------------------------------------
-// variant probe: which of the behaviours under repair does the tree under test have?
+// probe: are the key-deriving algorithms usable at all?  (an algorithm whose DeriveKey fails or
+// panics on the fixed keys is left out of the histories and reported in the evidence notes)
 
 type c19Probe struct {
-	Variant  [4]bool
 	SkipDir  bool
 	SkipECDH bool
 	Notes    []string
@@ -736,63 +735,28 @@ type c19Probe struct {
 
 func c19DoProbe() (p c19Probe) {
 	c19Rd.reset(0x1234)
-	// dir.DeriveKey
-	key := c19KeyBytes("dir", 16)
 	if d, ok := c19Wrapper(c19Op{KW: "dir", KeyLen: 16}).(keymanage.KeyDeriver); ok {
-		var cek, ek []byte
 		var err error
-		pn, _ := vf.Recover(func() { cek, ek, err = d.DeriveKey(&c19Opts{enc: jwa.A128GCM}) })
-		switch {
-		case pn || err != nil:
+		pn, _ := vf.Recover(func() { _, _, err = d.DeriveKey(&c19Opts{enc: jwa.A128GCM}) })
+		if pn || err != nil {
 			p.SkipDir = true
-			p.Notes = append(p.Notes, "dir.DeriveKey fails: dir skipped")
-		case len(cek) == 0 && bytes.Equal(ek, key):
-			p.Variant[0] = true
-		case bytes.Equal(cek, key) && len(ek) == 0:
-			p.Variant[0] = false
-		default:
-			p.SkipDir = true
-			p.Notes = append(p.Notes, "dir.DeriveKey returns neither (key, empty) nor (empty, key): dir skipped")
+			p.Notes = append(p.Notes, fmt.Sprintf("dir.DeriveKey fails (%v): dir skipped", err))
 		}
 	} else {
 		p.SkipDir = true
+		p.Notes = append(p.Notes, "dir key wrapper is no KeyDeriver: dir skipped")
 	}
-	// ecdhes with a *jwe.Header
-	h := c19Header(c19Op{KW: "ecdhKW", KeyLen: 16})
-	h.SetEncryptionAlgorithm(jwa.A128GCM)
-	var err error
-	pn, _ := vf.Recover(func() {
-		_, _, err = c19Wrapper(c19Op{KW: "ecdhKW", KeyLen: 16}).(keymanage.KeyDeriver).DeriveKey(h)
-	})
-	if pn {
-		p.SkipECDH = true
-		p.Notes = append(p.Notes, "ecdhes.DeriveKey(*jwe.Header) panics: ECDH-ES skipped")
-	}
-	p.Variant[1] = !pn && err == nil
-	// ecdhes with full options
 	for _, kw := range []string{"ecdhDirect", "ecdhKW"} {
-		before, _ := c19Rd.state()
 		var cek []byte
+		var err error
 		pn, _ := vf.Recover(func() {
 			cek, _, err = c19Wrapper(c19Op{KW: kw, KeyLen: 16}).(keymanage.KeyDeriver).DeriveKey(&c19Opts{enc: jwa.A128GCM, epk: c19EPK()})
 		})
-		after, _ := c19Rd.state()
 		if pn || err != nil || len(cek) != 16 {
 			p.SkipECDH = true
 			p.Notes = append(p.Notes, fmt.Sprintf("%s DeriveKey with complete options fails (%v): ECDH-ES skipped", kw, err))
-			continue
-		}
-		if kw == "ecdhDirect" {
-			p.Variant[2] = after > before
 		}
 	}
-	// agcmkw with a supplied iv of the wrong length
-	hh := &jwe.Header{}
-	hh.SetInitializationVector([]byte{1, 2, 3, 4, 5})
-	pn, _ = vf.Recover(func() {
-		_, err = c19Wrapper(c19Op{KW: "gcmkw", KeyLen: 16}).WrapKey(make([]byte, 16), hh)
-	})
-	p.Variant[3] = !pn
 	return
 }
 
@@ -823,11 +787,13 @@ func (g *c19Gen) kw(forMessage bool) (string, int) {
 				return "dir", kl
 			}
 		case 9:
-			if !g.probe.SkipECDH {
+			// the jwe-level ECDH-ES sender is unusable by design (known finding): ECDH-ES is driven
+			// through DeriveKey directly and through WrapKey, never through jwe messages
+			if !g.probe.SkipECDH && !forMessage {
 				return "ecdhDirect", kl
 			}
 		case 10:
-			if !g.probe.SkipECDH {
+			if !g.probe.SkipECDH && !forMessage {
 				return "ecdhKW", kl
 			}
 		case 11:
@@ -932,7 +898,7 @@ func (g *c19Gen) op() c19Op {
 func c19GenCase(r *vf.Rand, probe c19Probe, maxOps int, slow int) c19Case {
 	g := &c19Gen{r: r, probe: probe, maxOps: maxOps, slowLeft: slow}
 	n := 1 + r.Intn(maxOps)
-	cs := c19Case{Seed: r.U64(), Variant: probe.Variant}
+	cs := c19Case{Seed: r.U64()}
 	for i := 0; i < n; i++ {
 		cs.Ops = append(cs.Ops, g.op())
 	}
@@ -1001,9 +967,8 @@ func c19RunModel(d *vf.Driver, cs c19Case) ([]c19ModelStep, []c19ModelDraw, erro
 	for i, op := range cs.Ops {
 		ops[i] = c19OpWire(op)
 	}
-	v := vf.Arr(vf.Bool(cs.Variant[0]), vf.Bool(cs.Variant[1]), vf.Bool(cs.Variant[2]), vf.Bool(cs.Variant[3]))
 	q := 0
-	res, err := d.Call("c19.hist", []vf.Wire{v, vf.Arr(ops...)}, c19Oracle(cs.Seed, &q))
+	res, err := d.Call("c19.hist", []vf.Wire{vf.Arr(ops...)}, c19Oracle(cs.Seed, &q))
 	if err != nil {
 		return nil, nil, err
 	}
